@@ -393,6 +393,12 @@ func runPropose(t *testing.T, in *ProposeIn) result {
 	res := result{inTerm: inTerm, obsTerm: obsTerm,
 		obs: Observed{Panic: panicked, Message: msg, Detail: map[string]any{"graffiti": graffiti, "signed": lg.signed, "unblind": unb, "submitted": lg.submitted}}}
 	blinded := in.Proposal != nil && in.Proposal.Blinded
+	if in.Proposal != nil && in.Proposal.Version == 5 && !in.Proposal.Blinded && !in.Proposal.Present {
+		// an unblinded Deneb proposal with nil contents: the library's own accessor panics on it
+		res.tags = append(res.tags, "outside-decoder-domain")
+		res.counts = append(res.counts, "outside-decoder-domain")
+		res.nontrivial = true
+	}
 	if blinded && in.Auction != "res" {
 		res.counts = append(res.counts, "blinded-without-auction-result")
 		res.nontrivial = true
@@ -459,7 +465,7 @@ func genPropose(r *Rand) *ProposeIn {
 		}
 	}
 	if !r.Chance(1, 12) {
-		p := &ProposalIn{Version: uint64(r.Range(1, 5)), Blinded: r.Chance(3, 5), Present: !r.Chance(1, 10), SlotOK: !r.Chance(1, 10)}
+		p := &ProposalIn{Version: uint64(r.Range(1, 5)), Blinded: r.Chance(3, 5), Present: !r.Chance(1, 6), SlotOK: !r.Chance(1, 10)}
 		if r.Chance(1, 10) {
 			p.Version = []uint64{0, 6, 9}[r.Intn(3)]
 		}
